@@ -669,19 +669,20 @@ Fixpoint task_get (l : list task) (k : tkey) : option task :=
   | t :: r => if tkey_eqb (task_key t) k then Some t else task_get r k
   end.
 
-Fixpoint task_put (l : list task) (t : task) : list task :=
-  match l with
-  | [] => [t]
-  | u :: r => if tkey_eqb (task_key u) (task_key t) then t :: r
-              else if tkey_ltb (task_key t) (task_key u) then t :: l
-              else u :: task_put r t
-  end.
-
 Fixpoint task_del (l : list task) (k : tkey) : list task :=
   match l with
   | [] => []
   | u :: r => if tkey_eqb (task_key u) k then task_del r k else u :: task_del r k
   end.
+
+(* Set(primaryKey, value): the row replaces any row with the same key; rows are kept in key order *)
+Fixpoint task_insert (l : list task) (t : task) : list task :=
+  match l with
+  | [] => [t]
+  | u :: r => if tkey_ltb (task_key t) (task_key u) then t :: l else u :: task_insert r t
+  end.
+
+Definition task_put (l : list task) (t : task) : list task := task_insert (task_del l (task_key t)) t.
 
 Section Assoc.
   Context {K V : Type} (eqb : K -> K -> bool).
